@@ -941,9 +941,13 @@ def regenerate(names=None):
         except (Unsupported, IndexError, KeyError, SyntaxError, OSError,
                 AttributeError, TypeError, ValueError) as err:
             result[name] = "%s: %s" % (type(err).__name__, err)
-            path = os.path.join(GEN, OUTPUT[name])
-            if os.path.exists(path):
-                os.unlink(path)
+            # nothing stale may discharge an obligation: the generated
+            # source and every compiled form of it go away (dependants then
+            # fail to load)
+            base = os.path.join(GEN, OUTPUT[name])[:-2]
+            for ext in (".v", ".vo", ".vos", ".vok", ".glob"):
+                if os.path.exists(base + ext):
+                    os.unlink(base + ext)
     return result
 
 
